@@ -262,6 +262,8 @@ func (reg *Reg) referrerDelete(ctx context.Context, r ref.Ref, m manifest.Manife
 	// lock to avoid internal race conditions between pulling and pushing tag
 	reg.muRefTag.Lock()
 	defer reg.muRefTag.Unlock()
+	// a push that finished while this delete waited for the lock has cached its list, drop it again once the tag is rewritten
+	defer reg.cacheRL.Delete(rSubject)
 	// fallback to using tag schema for refers
 	rl, err := reg.referrerListByTag(ctx, rSubject)
 	if err != nil {
